@@ -468,12 +468,36 @@ def seed_identity(ctx, tool, cfg, info):
     ctx.need(indexed, R, "__getitem__ does not index a self attribute with its index parameter")
     idx_tainted = any(attr_taint.get(a, False) for a in indexed)
 
+    def never_none_attr(t):
+        """`self.<attr> is None` (or `is not None`) whose attribute is never None given the only construction site -> (attr, op)"""
+        if (isinstance(t, ast.Compare) and len(t.ops) == 1 and astq.is_self_attr(t.left, gself)
+                and isinstance(t.comparators[0], ast.Constant) and t.comparators[0].value is None):
+            ps = attr_params.get(t.left.attr, set())
+            if ps and all(param_nonnull.get(p, False) for p in ps):
+                return t.left.attr, t.ops[0]
+        return None
+
     def ptaint(node, at, depth=0):
         """reasons why the value of ``node`` (evaluated at cfg node ``at``) depends on manifest-filtered positions"""
         out = []
         if depth > 6:
             return out
+        if isinstance(node, ast.IfExp):
+            nn = never_none_attr(node.test)
+            if nn is not None:
+                # `a if self.x is None else b` with x never None: only b is ever evaluated
+                live = node.orelse if isinstance(nn[1], ast.Is) else node.body
+                return ptaint(live, at, depth + 1)
         skip = set()
+        for x in ast.walk(node):
+            if isinstance(x, ast.IfExp):
+                nn = never_none_attr(x.test)
+                if nn is not None:
+                    dead = x.body if isinstance(nn[1], ast.Is) else x.orelse
+                    for y in ast.walk(dead):
+                        skip.add(id(y))
+                    for y in ast.walk(x.test):
+                        skip.add(id(y))
         for x in ast.walk(node):
             if isinstance(x, ast.Subscript) and astq.is_self_attr(x.value, gself) and astq.is_name(x.slice, gidx):
                 # an *element* of the collection: the utterance's identity / path, not its position
